@@ -85,6 +85,18 @@ theorem checkAt_iff (n : Network) (r : Rule) (i : Nat) (e : Elem) :
   | same k p q => simp [Rule.checkAt, Rule.HoldsAt]
   | ifFwd k p q q' => simp [Rule.checkAt, Rule.HoldsAt]
   | card k f g => simp [Rule.checkAt, Rule.HoldsAt]
+  | memIf k f kj q =>
+    simp only [Rule.checkAt, Rule.HoldsAt, List.all_eq_true]
+    constructor
+    · intro h j hj hg
+      have := h j hj
+      rw [if_pos ((guardKind_iff n kj j).mpr hg)] at this
+      simpa using this
+    · intro h j hj
+      by_cases hg : guardKind n kj j = true
+      · rw [if_pos hg]
+        simpa using h j hj ((guardKind_iff n kj j).mp hg)
+      · rw [if_neg hg]
 
 /-- the executable check of one rule is equivalent to its ∀-statement -/
 theorem rule_check_iff (n : Network) (r : Rule) : r.check n = true ↔ r.Holds n := by
